@@ -209,6 +209,17 @@ func (c *FeeController) executeAction(
 	fees []actiontypes.RecipientAmount,
 ) error {
 	for _, fee := range fees {
+		// NOTE: the bank keeper, unlike the bank message server, does not check if the recipient
+		// is allowed to receive funds. Crediting a module account that does not exist yet (like
+		// the dust collector) would create a base account at its address, and every later
+		// module-to-module transfer to it would panic.
+		if c.BankKeeper.BlockedAddr(fee.Recipient) {
+			return core.ErrInvalidAttributes.Wrapf(
+				"fee recipient %s is not allowed to receive funds",
+				fee.Recipient.String(),
+			)
+		}
+
 		err := c.BankKeeper.SendCoins(ctx, core.ModuleAddress, fee.Recipient, fee.Amount)
 		if err != nil {
 			return err
